@@ -50,6 +50,33 @@ def check(ctx):
            node=pn, message='the existence test of the argument follows symlinks: a dangling '
                             'link is reported as nonexistent, a link to a directory is judged '
                             'by its target')
+    # an argument is treated as "not there" (skipped silently under -f, or reported as
+    # nonexistent) only on the word of a no-follow probe
+    region = r.body_nodes()
+    for n in b.nodes('return'):
+        if n.id not in region:
+            continue
+        vals = flat(n.data.get('value')) if n.data.get('value') is not None else []
+        if not vals or not all(isinstance(v, EnumVal) and v.name in ('Success', 'Failure')
+                               for v in vals):
+            continue          # only verdicts about the argument, not descriptions of it
+        for c, pol, a in guards(b, n.id):
+            if a.id not in region:
+                continue
+            c2, p2 = unwrap_not(c, pol)
+            for x in flat(c2):
+                pn = probe_result_of(x)
+                if pn is None or p2:
+                    continue
+                pd = g.n(pn).data
+                if pd['role'] == 'presence' and pd['args'] and \
+                        alt_ids(pd['args'][0]) == r.arg_ids and pd['follow'] and \
+                        not any(e.id for e in r.muts if g.dominates(e.id, n.id)):
+                    ctx.ob('R18.1', 'an argument is judged absent only by a no-follow probe',
+                           False, node=g.n(pn),
+                           message='%s (follows symlinks) decides that the argument is not '
+                                   'there: under -f a dangling symlink is silently left in '
+                                   'place and exit status is 0' % pd['prim'])
     # R18.2
     for p in b.probes():
         if p.data['prim'] not in prims.LINK_RESOLVERS:
